@@ -541,7 +541,10 @@ fn explore_cmd(args: &[String]) -> Value {
         // --- one poller iteration, with scheduling delays between its steps
         let t_first = now_ns;
         let err_first = err_ns;
-        let tight = rng.gen_range(0..4) == 0;
+        // cold-boot prologue: the daemon is started shortly after boot and chronyd has no sample yet (silent,
+        // unsynchronised, stale): the place-holder record is read at uptimes between 5 s and 1000 s
+        let prologue = poll < 3 && restarts == 1;
+        let tight = !prologue && rng.gen_range(0..4) == 0;
         let d1 = if tight { 0 } else { [0, 1_000_000, 10_000_000, 300_000_000, 2 * G][rng.gen_range(0..5)] };
         if tight {
             // chronyd has just corrected the clock: the error is now a multiple of 2^-9 s (exact on the wire and in
@@ -555,7 +558,7 @@ fn explore_cmd(args: &[String]) -> Value {
         // chronyd's report is valid at the instant of the query: the second event in the code's order (clock
         // read, then query), the first one if the code queries first
         let err_at_reply = if po == "mono_first" { err_ns } else { err_first };
-        let kind = if tight { 9 } else { rng.gen_range(0..10) };
+        let kind = if tight { 9 } else if prologue { [0, 2, 3][poll] } else { rng.gen_range(0..10) };
         let mut in_outage = false;
         let reply = match kind {
             0 | 1 => {
@@ -626,10 +629,12 @@ fn explore_cmd(args: &[String]) -> Value {
             }
         }
         // --- clients ask at random and adversarial instants until the next poll
-        let n_asks = rng.gen_range(0..4);
+        let n_asks = if prologue { 2 } else { rng.gen_range(0..4) };
         let mut spent: i128 = 0;
-        for _ in 0..n_asks {
-            let gap = match rng.gen_range(0..6) {
+        for ask_i in 0..n_asks {
+            let gap = match if prologue { 6 + ask_i } else { rng.gen_range(0..6) } {
+                6 => 5 * G + 1,
+                7 => 100 * G,
                 0 => 0,
                 1 => 5 * G - 1 - spent.min(5 * G - 1),
                 2 => 5 * G + 1,
@@ -670,7 +675,7 @@ fn explore_cmd(args: &[String]) -> Value {
             }
         }
         // --- until the next poll; sometimes a long outage of the daemon itself or a restart
-        let rest = match rng.gen_range(0..20) {
+        let rest = match if prologue { 19 } else { rng.gen_range(0..20) } {
             0 => {
                 p.die();
                 alive = false;
